@@ -112,7 +112,15 @@ RECURSIVE JoinS(_, _)
 JoinS(s, j) == IF j > Len(s) THEN "" ELSE s[j] \o (IF j < Len(s) THEN "," ELSE "") \o JoinS(s, j + 1)
 
 ReqSlots(e, mm) == IF "req" \in DOMAIN e THEN [j \in 1..Len(e.req) |-> MapGet(mm.sc, e.req[j], U0)] ELSE <<>>
-Snap(mm) == [out |-> MOutcome(mm), exits |-> mm.exits, req |-> ReqSlots(Entry, mm)]
+\* Exit snapshots.  In a program with recursion the caller's routine-private variables are spilled to the stack around a
+\* recursive call; an optimisation that removes such a variable legitimately removes its spilled copy, which lies BELOW the
+\* values of the routine that is being left.  For recipes whose call graph has a cycle (entry.rec = 1) the snapshots are
+\* therefore compared on the routine left and the value on top (its result); otherwise on the whole stack.
+ExitsView(mm) ==
+  IF "rec" \in DOMAIN Entry /\ Entry.rec = 1
+  THEN [j \in 1..Len(mm.exits) |-> [k |-> mm.exits[j].k, st |-> IF mm.exits[j].st = <<>> THEN <<>> ELSE <<mm.exits[j].st[Len(mm.exits[j].st)]>>]]
+  ELSE mm.exits
+Snap(mm) == [out |-> MOutcome(mm), exits |-> ExitsView(mm), req |-> ReqSlots(Entry, mm)]
 
 \* ---- constant-load sites (C12): the program with constant blocks vs the pseudo-op program ----------------
 \* Every constant-load instruction is replaced by the value it pushes (block indices resolved through the
